@@ -134,6 +134,17 @@ Definition wtargets (h : heap) (i : N) : ids :=
               end
   end.
 
+(* ob[...] = v : a slice assignment into a buffer (blob / the data of a DataArray-like struct), or a store
+   into a container built by the code itself: that replaces an element, it does not write into one *)
+Definition stargets (h : heap) (i : N) : ids :=
+  match hfind i h with
+  | None => [i]
+  | Some o => match ffind F_DATA (ofields o) with
+              | Some d => unions (map (fun j => add j (oelems (hget j h))) d)
+              | None => [i]
+              end
+  end.
+
 Fixpoint sadd (k : N) (l : list N) : list N :=
   match l with [] => [k] | x :: r => if N.eqb k x then l else x :: sadd k r end.
 Definition skeys (a b : list N) : list N := fold_left (fun acc k => sadd k acc) b (fold_left (fun acc k => sadd k acc) a []).
@@ -299,7 +310,7 @@ with exec (top : bool) (d n : nat) (t : stmt) (s : st) {struct n} : st :=
         let r := eval top d n' rhs s in
         let ro := eval top d n' ob (snd r) in
         let h := hp (snd ro) in
-        add_wr (unions (map (wtargets h) (fst ro))) (set_hp (snd ro) (fold_left (add_rest (fst r)) (fst ro) h))
+        add_wr (unions (map (stargets h) (fst ro))) (set_hp (snd ro) (fold_left (add_rest (fst r)) (fst ro) h))
     | SExpr e => snd (eval top d n' e s)
     | SReturn e => let r := eval top d n' e s in add_rt (fst r) (snd r)
     | SIf a b =>
